@@ -80,7 +80,7 @@ add("C15", "sched", "fault_enumeration", "schedule-controlled testing with enume
     "Error received exactly once, nothing from behind it, earlier sets at most once (all + end marker when draining); reader_init / dataset_init / record_data_init / rset_data_init failures come back as Err without panic or deadlock; a parse error through parallel_fasta/parallel_fastq equals the sequential one (Debug-equal).",
     SN)
 add("C16", "sched", "exploration", "schedule-controlled property-based testing: resource invariant over the recorded history (number and identity of data sets, reader lead bounded by the queue length) with long inputs and slow/fast consumers under shuttle schedules",
-    "dataset_init calls <= queue_len + 1, every data set seen by fill/worker/consumer was created by it, at every fill: fills <= queue_len + min(received + 1, finished results); record_data_init calls bounded by (queue_len + 1) x largest set; real readers: record-set buffer capacities bounded independent of the number of batches.",
+    "dataset_init calls <= queue_len + 1, every data set seen by fill/worker/consumer was created by it, at every fill: fills <= queue_len + min(received + 1, finished results); per-record outputs alive at the same time bounded by (queue_len + 1) x largest set; real readers: record-set buffer capacities bounded independent of the number of batches.",
     SN + "; memory is judged through the number/identity/capacity of data sets, not RSS")
 
 NOT_YET = "check under construction (framework being built); will be claimed once its command exists"
